@@ -256,6 +256,12 @@ Theorem C07_embed_tp_only_if : forall (R : CR) n3 k s t c' c (l : list (@mat R *
   nsum (length l) (cmul R c' c) = c1 R.
 Proof. intros R. exact (@embed_tp_only_if R). Qed.
 Print Assumptions C07_embed_tp_only_if.
+(* POVMs: the embedded elements sum to the identity when the elements do and m c = 1 (Povm._embed...: c = 1 / m) *)
+Theorem C07_embed_povm_identity_sum : forall (R : CR) n3 k s t c (l : list (@mat R)), bij (n3 + k) s t ->
+  meq n3 n3 (sum_mats l) mid -> nsum (length l) c = c1 R ->
+  meq (n3 + k) (n3 + k) (sum_mats (map (embed_fast n3 s c) l)) mid.
+Proof. intros R. exact (@embed_povm_identity_sum R). Qed.
+Print Assumptions C07_embed_povm_identity_sum.
 (* positive semidefiniteness: block diagonal + permutation congruence preserves PSD when the padding coefficient c is real and
    non-negative (0 for states, 1/m for POVM elements).  [C07_embed_psd]: complex Hermitian matrices, PSD through the real
    symmetric embedding [[A, -B], [B, A]] of Model/HermEmbed.v (the definition all physicality verdicts use);
